@@ -820,7 +820,7 @@ void basic_set_emptyset(basic s)
 
 void basic_set_universalset(basic s)
 {
-    basic_rcp(s) = SymEngine::emptyset();
+    basic_rcp(s) = SymEngine::universalset();
 }
 
 void basic_set_complexes(basic s)
